@@ -170,6 +170,10 @@ namespace sqf::parser::preprocessor
                         switch (c)
                         {
                         case '\\':
+                            if (escaped)
+                            {
+                                outputString.push_back('\\');
+                            }
                             escaped = true;
                             break;
                         case '\n':
